@@ -743,7 +743,7 @@ impl Color {
         //   Ca, Cb:  A/B color
         //
         fn composite_channel(c_a: u8, a_a: f64, c_b: u8, a_b: f64, a_o: f64) -> u8 {
-            ((c_a as f64 * a_a + c_b as f64 * a_b * (1.0 - a_a)) / a_o).floor() as u8
+            ((c_a as f64 * a_a + c_b as f64 * a_b * (1.0 - a_a)) / a_o).round() as u8
         }
 
         let a = source.alpha + backdrop.alpha * (1.0 - source.alpha);
